@@ -62,6 +62,15 @@ def enumerated(tier, seed):
     for qs in ([[" INCLUDE bad.asm\n"]], [[" INCLUDE loop.asm\n"]], [[" INCLUDE broken.asm\n"]],
                [[" INCLUDE outer.asm\n", " INCLUDE bad.asm\n"], [" INCLUDE broken.asm\n"], good]):
         yield dict(p=good, qs=qs, fresh=False, files=files)
+    # an included file whose contents differ between two assemblies in the same interpreter (a regenerated config):
+    # the history runs first, then P is compared with a fresh process
+    cfg_a = ["DELAY EQU $11\n"]
+    cfg_b = ["DELAY EQU $22\n", "EXTRA EQU 1\n"]
+    user = [" ORG $1000\n", " INCLUDE cfg.asm\n", " LDA #DELAY\n"]
+    yield dict(p=user, qs=[dict(lines=user, files_during={"cfg.asm": cfg_b})], fresh=True, history_first=True,
+               files={"cfg.asm": cfg_a})
+    yield dict(p=user, qs=[dict(lines=[" INCLUDE cfg.asm\n"], files_during={"cfg.asm": cfg_b}), [" FOO \n"]], fresh=True,
+               history_first=True, files={"cfg.asm": cfg_a})
     # the same includer fails while a nested file is temporarily missing, then must assemble as before
     yield dict(p=good, qs=[dict(lines=good, hide=["inner.asm"])], fresh=False, files=files)
     yield dict(p=good, qs=[dict(lines=[" INCLUDE outer.asm\n"], hide=["inner.asm"]), [" INCLUDE loop.asm\n"]], fresh=False, files=files)
@@ -115,7 +124,7 @@ def execute(case):
             old = os.getcwd()
             os.chdir(tmp)
             try:
-                return _execute(dict(case, fresh=False))
+                return _execute(case)
             finally:
                 os.chdir(old)
     return _execute(case)
@@ -126,25 +135,18 @@ def _execute(case):
     tables = _tables_hash()
     p = list(case["p"])
     keep = list(p)
+    if case.get("history_first"):
+        # the history is assembled before P is ever seen by this interpreter state; P is judged against fresh processes
+        for q in case["qs"]:
+            if _run_history_item(q)[2]:
+                return viol("the list of source lines was modified by assembling it", fid="C17:input-modified", labels=labels)
     first = driver.canonical(driver.assemble(p))
     if p != keep:
         return viol("the list of source lines was modified by assembling it", fid="C17:input-modified", labels=labels)
     failures = 0
     for i, q in enumerate(case["qs"]):
-        hidden = []
-        if isinstance(q, dict):
-            import os
-            for name in q.get("hide", []):
-                os.rename(name, name + ".hidden")
-                hidden.append(name)
-            q = q["lines"]
-        qq = list(q)
-        try:
-            out = driver.assemble(qq)
-        finally:
-            for name in hidden:
-                os.rename(name + ".hidden", name)
-        if qq != list(q):
+        out, q, modified = _run_history_item(q)
+        if modified:
             return viol("the list of source lines was modified by assembling it", fid="C17:input-modified", labels=labels)
         if out.kind != "OK":
             failures += 1
@@ -169,6 +171,31 @@ def _execute(case):
                 return viol("fresh process with PYTHONHASHSEED={} gives {!r}, warm process gave {!r}".format(hs, _short(got), _short(want)),
                             fid="C17:fresh-process", labels=labels)
     return ok(labels=labels, nontrivial=bool(failures) or case["fresh"])
+
+
+def _run_history_item(q):
+    """assemble one history item; a dict item may hide files or replace their contents for the duration"""
+    import os
+    hidden, saved = [], {}
+    if isinstance(q, dict):
+        for name in q.get("hide", []):
+            os.rename(name, name + ".hidden")
+            hidden.append(name)
+        for name, flines in q.get("files_during", {}).items():
+            saved[name] = open(name).read()
+            with open(name, "w", newline="") as fh:
+                fh.write("".join(flines))
+        q = q["lines"]
+    qq = list(q)
+    try:
+        out = driver.assemble(qq)
+    finally:
+        for name in hidden:
+            os.rename(name + ".hidden", name)
+        for name, text in saved.items():
+            with open(name, "w", newline="") as fh:
+                fh.write(text)
+    return out, q, qq != list(q)
 
 
 def _short(canon):
